@@ -12,7 +12,7 @@
                    syntactically the mirror's output. *)
 From Coq Require Import ZArith List Bool NArith.
 From Falcon Require Import Base.Res IL.Const IL.ConstSpec IL.Expr IL.ExprSpec IL.Func IL.Loc Exec.Sem.
-From Falcon Require Import Isa.X86 Isa.X86Run.
+From Falcon Require Import Isa.X86 Isa.X86Run Isa.X86Mirror.
 Import ListNotations.
 Local Open Scope Z_scope.
 
@@ -155,6 +155,7 @@ Definition ck (c : tcase) : bool * bool :=
 
 (* development aid: the code of every sample *)
 Definition diag (c : tcase) : list Z :=
+  (if fst (ck c) then [] else [100]) ++
   match tc_lift c with
   | LOk g succ => map (sample_code c g succ) (tc_samples c)
   | LErr ESort => [-1]
